@@ -134,3 +134,17 @@ Proof. repeat split; reflexivity. Qed.
 
 Lemma compose_src_ok : src_ComposeTS = "{ return uint64(physical)<<18 | uint64(logical)&0x3FFFF }".
 Proof. reflexivity. Qed.
+
+(* the RPC layer (server/grpc_service.go Tso): one answer per request received, in the order received; a local request is
+   answered by the allocator manager with exactly the count it was asked for, and that count is what the response says it
+   stands for (the model's grant record carries one count: the n values a client derives are the n the allocator advanced
+   by); a forwarded request is sent on a forward stream that belongs to this client stream alone (created inside the
+   handler, re-created when the forwarded host changes) and answered by the next message of that stream - so the pairing of
+   requests and answers is that of the member the stream is forwarded to *)
+Lemma skel_handler_Tso_ok : skel_handler_Tso =
+  [Assign "forwardStream" "var zero"; Assign "lastForwardedHost" "var zero"; ForE [Call "Recv"; Assign "request" ":= stream.Recv()"; IfE "err == io.EOF" [Ret] []; IfE "err != nil" [Ret] []; Call "isLocalRequest"; IfE "!s.isLocalRequest(forwardedHost)" [IfE "forwardStream == nil || lastForwardedHost != forwardedHost" [Call "getDelegateClient"; IfE "err != nil" [Ret] []; Call "createTsoForwardStream"; Assign "forwardStream" "= s.createTsoForwardStream(client)"; IfE "err != nil" [Ret] []; Assign "lastForwardedHost" "= forwardedHost"] []; Call "Send"; IfE "err != nil" [Ret] []; Call "Recv"; Assign "resp" ":= forwardStream.Recv()"; IfE "err != nil" [Ret] []; Call "Send"; IfE "err != nil" [Ret] []; Cont] []; Call "IsClosed"; IfE "s.IsClosed()" [Ret] []; IfE "request.GetHeader().GetClusterId() != s.clusterID" [Ret] []; Call "GetCount"; Assign "count" ":= request.GetCount()"; Call "HandleTSORequest(request.GetDcLocation(), count)"; Assign "ts" ":= s.tsoAllocatorManager.HandleTSORequest(request.GetDcLocation(), count)"; IfE "err != nil" [Ret] []; Assign "response" ":= &pdpb.TsoResponse{ Header: s.header(), Timestamp: &ts, Count: count, }"; Call "Send"; IfE "err != nil" [Ret] []]].
+Proof. reflexivity. Qed.
+
+Lemma src_createTsoForwardStream_ok : src_createTsoForwardStream =
+  "{ done := make(chan struct{}) ctx, cancel := context.WithCancel(s.ctx) go checkStream(ctx, cancel, done) forwardStream, err := pdpb.NewPDClient(client).Tso(ctx) done <- struct{}{} return forwardStream, cancel, err }".
+Proof. reflexivity. Qed.
